@@ -363,7 +363,7 @@ class Walker:
                 pass
         if s[0] == "try":
             if name == "Continue.0":
-                return ("field", s[1], s[2][0] + ".0")
+                return self._field(s[1], s[2][0] + ".0", mem)       # payload of the value `?` was applied to (reduced if known)
             if name == "Break.0":
                 return ("field", s[1], "<residual>")
         return key
